@@ -25,8 +25,10 @@ import (
 type fileIn struct {
 	Param   string      `json:"param"`
 	Name    string      `json:"name"`
-	CT      string      `json:"content_type"` // "" = let the library sniff
-	Kind    string      `json:"kind"`         // path | bytes | reader | upload
+	CT      string      `json:"content_type"`              // "" = let the library sniff
+	Kind    string      `json:"kind"`                      // path | bytes | reader | upload | seek
+	Prefix  int         `json:"consumed_prefix,omitempty"` // seek: bytes of the seekable reader the caller has read before handing it over
+	Seeker  string      `json:"seeker,omitempty"`          // seek: bytes | strings | section
 	Content []byte      `json:"-"`
 	Desc    string      `json:"content"`                 // description of Content
 	Sizes   []int       `json:"read_sizes,omitempty"`    // reader/upload: the i-th Read returns at most Sizes[i] bytes (last repeats)
@@ -58,14 +60,15 @@ type reqIn struct {
 	SetFiles       bool     `json:"set_files,omitempty"`       // the (path) files are given as one SetFiles map
 	Stream         bool     `json:"stream,omitempty"`          // Raw is handed over as SetBody(io.Reader)
 	StreamSizes    []int    `json:"stream_read_sizes,omitempty"`
+	Nested         int      `json:"nested_uploads,omitempty"` // buffered multipart uploads a round-trip wrapper makes between this request's set-up and its write
 }
 
 func (in reqIn) key() string {
 	var sb strings.Builder
-	fmt.Fprintf(&sb, "%s|%v|%v|%v|%s|%s|%s|%v|%q|%q|%q|%v|%v|%q|%q|%q|%s|%x|%v|%s", in.Proto, in.SetFiles, in.Stream, in.StreamSizes, in.Rerun, in.Kind, in.Method, in.AllowGet, fmt.Sprint(in.RForm), fmt.Sprint(in.CForm),
+	fmt.Fprintf(&sb, "%d|%s|%v|%v|%v|%s|%s|%s|%v|%q|%q|%q|%v|%v|%q|%q|%q|%s|%x|%v|%s", in.Nested, in.Proto, in.SetFiles, in.Stream, in.StreamSizes, in.Rerun, in.Kind, in.Method, in.AllowGet, fmt.Sprint(in.RForm), fmt.Sprint(in.CForm),
 		in.Ordered, in.ForceMultipart, in.Chunked, in.Boundary, in.RCT, in.CCT, in.Marshal, in.Raw, in.RawSet, in.Callback)
 	for _, f := range in.Files {
-		fmt.Fprintf(&sb, "|%q %q %q %s %d %s %v %v %s %d %v", f.Param, f.Name, f.CT, f.Kind, len(f.Content), f.Desc, f.Sizes, f.EOFWith, f.Fail, f.Decl, f.Extra)
+		fmt.Fprintf(&sb, "|%q %q %q %s %d %s %v %v %s %d %v %d %s", f.Param, f.Name, f.CT, f.Kind, len(f.Content), f.Desc, f.Sizes, f.EOFWith, f.Fail, f.Decl, f.Extra, f.Prefix, f.Seeker)
 	}
 	return sb.String()
 }
@@ -123,10 +126,11 @@ type upInfo struct {
 }
 
 type sentReq struct {
-	Err     string
-	Arrived *arrived // the last attempt
-	First   *arrived // the first attempt when the exchange was scripted to be sent twice
-	Ups     []upInfo
+	Err      string
+	Arrived  *arrived // the last attempt
+	First    *arrived // the first attempt when the exchange was scripted to be sent twice
+	InnerErr string   // an upload made by the round-trip wrapper did not arrive as supplied
+	Ups      []upInfo
 }
 
 var intervals = map[string]time.Duration{"0": 0, "1ms": time.Millisecond, "1h": time.Hour}
@@ -206,6 +210,20 @@ func (g *gen) send(in reqIn) sentReq {
 			rq.SetFile(f.Param, p)
 		case "bytes":
 			rq.SetFileBytes(f.Param, f.Name, f.Content)
+		case "seek":
+			// a seekable reader the caller has already read a prefix of: what is supplied is the rest
+			all := append(bytes.Repeat([]byte("#consumed#"), f.Prefix/10+1)[:f.Prefix:f.Prefix], f.Content...)
+			var rd io.ReadSeeker
+			switch f.Seeker {
+			case "strings":
+				rd = strings.NewReader(string(all))
+			case "section":
+				rd = io.NewSectionReader(bytes.NewReader(all), 0, int64(len(all)))
+			default:
+				rd = bytes.NewReader(all)
+			}
+			io.CopyN(io.Discard, rd, int64(f.Prefix))
+			rq.SetFileReader(f.Param, f.Name, rd)
 		case "reader":
 			rq.SetFileReader(f.Param, f.Name, &scriptReader{data: f.Content, sizes: f.Sizes, eofWith: f.EOFWith, failAt: -1})
 		default: // upload: fully customised FileUpload
@@ -242,6 +260,25 @@ func (g *gen) send(in reqIn) sentReq {
 	}
 	var out sentReq
 	var mu sync.Mutex
+	if in.Nested > 0 {
+		// a round-trip wrapper that uploads something of its own before it lets the request through: the
+		// outer request's body has been set up by then and has not been written yet
+		k := in.Nested
+		c.WrapRoundTripFunc(func(rt req.RoundTripper) req.RoundTripFunc {
+			return func(r *req.Request) (*req.Response, error) {
+				if r == rq {
+					for j := 0; j < k; j++ {
+						if msg := g.innerUpload(c, j); msg != "" {
+							mu.Lock()
+							out.InnerErr = msg
+							mu.Unlock()
+						}
+					}
+				}
+				return rt.RoundTrip(r)
+			}
+		})
+	}
 	if in.Callback != "" {
 		rq.SetUploadCallbackWithInterval(func(info req.UploadInfo) {
 			mu.Lock()
@@ -621,4 +658,30 @@ func (g *gen) oracleUploads(in reqIn, s sentReq) {
 			}
 		}
 	}
+}
+
+// innerUpload: a buffered multipart upload made from inside a round-trip wrapper; returns "" when it arrived as supplied.
+func (g *gen) innerUpload(c *req.Client, j int) string {
+	x := g.nextX()
+	content := bytes.Repeat([]byte{byte('A' + j)}, 300+700*j)
+	val := fmt.Sprintf("inner-%d-%s", j, x)
+	resp, err := c.R().SetFormData(map[string]string{"inner": val}).SetFileBytes("innerfile", "inner.bin", content).Post(g.o.url(x))
+	a := g.o.take(x)
+	if err != nil || resp.Err != nil || a == nil {
+		return fmt.Sprintf("inner upload %d failed: %v", j, err)
+	}
+	_, parts, perr := serverParts(a)
+	okField, okFile := false, false
+	for _, p := range parts { // (client-level form fields of the outer request's client come along: fine)
+		if !p.HasFileName && p.Name == "inner" && string(p.Body) == val {
+			okField = true
+		}
+		if p.HasFileName && p.Name == "innerfile" && bytes.Equal(p.Body, content) {
+			okFile = true
+		}
+	}
+	if perr != nil || !okField || !okFile {
+		return fmt.Sprintf("inner upload %d arrived altered (%v, %v)", j, perr, describeParts(parts))
+	}
+	return ""
 }
